@@ -11,6 +11,7 @@ package surgeon
 //@   ensures [write] err == nil ==> fwcount == old(fwcount) + 1 && fwpath == path && fwpageid == target
 //@   ensures [content] err == nil ==> fwtxid == grtxid[srcPage] && fwroot == grroot[srcPage] && fwsequence == grsequence[srcPage] && fwfreelist == grfreelist[srcPage] && fwpgid == grpgid[srcPage] && fwmagic == grmagic[srcPage] && fwversion == grversion[srcPage] && fwpagesize == grpagesize[srcPage] && fwflags == grflags[srcPage]
 //@   ensures [atmostone] fwcount <= old(fwcount) + 1
+//@   ensures [unwritten] fwcount == old(fwcount) ==> fwpath == old(fwpath)
 //@   ensures [onlypath] fwcount > old(fwcount) ==> fwpath == path
 
 //@ func clearFreelistInMetaPage
@@ -20,6 +21,7 @@ package surgeon
 //@   ensures [cleared] err == nil ==> fwfreelist == common.PgidNoFreelist && fwsumok
 //@   ensures [kept] err == nil ==> fwtxid == grtxid[pageId] && fwroot == grroot[pageId] && fwsequence == grsequence[pageId] && fwpgid == grpgid[pageId] && fwmagic == grmagic[pageId] && fwversion == grversion[pageId] && fwpagesize == grpagesize[pageId] && fwflags == grflags[pageId]
 //@   ensures [atmostone] fwcount <= old(fwcount) + 1
+//@   ensures [unwritten] fwcount == old(fwcount) ==> fwpath == old(fwpath)
 //@   ensures [onlypath] fwcount > old(fwcount) ==> fwpath == path
 
 //@ func ClearFreelist
